@@ -34,7 +34,7 @@ STATE_NAMES = {-1: "ERROR", 0: "IDLE", 1: "PARSE_PREFIX", 2: "PARSE_COMMAND_CHAR
 class Job:
     def __init__(self, name, harness, defines=None, unwind=None, unwindset=None, checks=False, solver="minisat",
                  timeout=600, hinted=False, samples=2000, witness=True, object_bits=None, mem_gb=14,
-                 max_refine=6, extra=None, note="", required_witness=None):
+                 max_refine=10, extra=None, note="", required_witness=None):
         self.name = name
         self.harness = harness
         self.defines = dict(defines or {})
